@@ -1473,7 +1473,75 @@ def selftest(ctx: Ctx) -> None:
         raise HarnessError('strace not found')
 
 
+
+# ---------------------------------------------------------------------------
+# install scripts and the effective DESTDIR (Installing.md "DESTDIR support": with --destdir "Meson will set DESTDIR into
+# environment when running install scripts", "An absolute path will be set into environment when executing scripts";
+# meson.add_install_script: MESON_INSTALL_DESTDIR_PREFIX "contains DESTDIR (if set) and prefix joined together").
+# A script following the documented `${DESTDIR}/${MESON_INSTALL_PREFIX}` convention writes outside the staging area as
+# soon as it is handed a stale or missing DESTDIR, so what the scripts see is part of "writes only beneath $DESTDIR".
+
+SCRIPT_ENV_PY = """#!/usr/bin/env python3
+import json, os, sys
+with open(sys.argv[1], 'w') as f:
+    json.dump({k: os.environ.get(k) for k in ('DESTDIR', 'MESON_INSTALL_PREFIX', 'MESON_INSTALL_DESTDIR_PREFIX')}, f)
+"""
+
+
+def script_destdir_matrix(ctx: Ctx) -> None:
+    from harness import mesondrv as M
+    root = os.path.join(ctx.scratch, 'script-destdir')
+    src, bld = os.path.join(root, 'src'), os.path.join(root, 'bld')
+    rec = os.path.join(root, 'rec.json')
+    prefix = os.path.join(root, 'real prefix')
+    M.write_tree(src, {'meson.build': "project('sd')\ninstall_data('d.txt', install_dir: 'share/sd')\n"
+                                      f"meson.add_install_script(find_program('envdump.py'), {mstr(rec)})\n",
+                       'd.txt': 'x\n', 'envdump.py': SCRIPT_ENV_PY})
+    os.chmod(os.path.join(src, 'envdump.py'), 0o755)
+    r = M.run_sub(['setup', f'--prefix={prefix}', bld, src], cwd=root)
+    if r.rc != 0:
+        raise HarnessError(f'script/DESTDIR project does not configure: {r!r}')
+    stage_abs = os.path.join(root, 'stage abs')
+    stale = os.path.join(root, 'stale')
+    ways = [
+        ('--destdir absolute', ['--destdir', stage_abs], {}, stage_abs),
+        ('--destdir relative to the build directory', ['--destdir', 'rel stage'], {}, os.path.join(bld, 'rel stage')),
+        ('DESTDIR absolute in the environment', [], {'DESTDIR': stage_abs}, stage_abs),
+        ('DESTDIR relative in the environment', [], {'DESTDIR': 'rel env'}, os.path.join(bld, 'rel env')),
+        ('--destdir absolute overriding a DESTDIR from the environment', ['--destdir', stage_abs], {'DESTDIR': stale}, stage_abs),
+        ('no DESTDIR at all', [], {}, ''),
+    ]
+    for what, args, env, eff in ways:
+        for d in (stage_abs, stale, prefix, os.path.join(bld, 'rel stage'), os.path.join(bld, 'rel env')):
+            shutil.rmtree(d, ignore_errors=True)
+        if os.path.exists(rec):
+            os.unlink(rec)
+        ir = M.run_sub(['install', '--no-rebuild', '-C', bld] + args, cwd=root, env=env)
+        case = {'script_destdir': what}
+        ctx.ev.case(case, nontrivial=True, cls='install-script/DESTDIR', sample={'way': what, 'effective_destdir': eff or None})
+        if ir.rc != 0 or not os.path.exists(rec):
+            ctx.fail(Failure('install-script/install-failed', case, f'{what}: meson install exit {ir.rc}\n{ir.text[-900:]}'))
+            continue
+        with open(rec) as fh:
+            seen = json.load(fh)
+        want_dd = eff if eff else None
+        want_dp = (eff + prefix) if eff else prefix
+        got_dd = os.path.normpath(seen['DESTDIR']) if seen.get('DESTDIR') else None
+        got_dp = os.path.normpath(seen['MESON_INSTALL_DESTDIR_PREFIX']) if seen.get('MESON_INSTALL_DESTDIR_PREFIX') else None
+        if got_dd != (os.path.normpath(want_dd) if want_dd else None) or got_dp != os.path.normpath(want_dp):
+            ctx.fail(Failure('install-script/wrong-DESTDIR-in-environment', case,
+                             f'{what}: the install script saw DESTDIR={seen.get("DESTDIR")!r}, MESON_INSTALL_DESTDIR_PREFIX='
+                             f'{seen.get("MESON_INSTALL_DESTDIR_PREFIX")!r}; the effective staging directory is {want_dd!r} '
+                             f'(expected DESTDIR={want_dd!r}, MESON_INSTALL_DESTDIR_PREFIX={want_dp!r}): a script using the documented '
+                             '${DESTDIR}/${MESON_INSTALL_PREFIX} convention would write outside it'))
+            continue
+        if eff and (os.path.exists(prefix) or os.path.exists(stale)):
+            ctx.fail(Failure('install-script/wrote-outside-destdir', case, f'{what}: something was created under the real prefix / the stale DESTDIR'))
+    shutil.rmtree(root, ignore_errors=True)
+
+
 def run(ctx: Ctx) -> None:
+    script_destdir_matrix(ctx)
     seeds = shard_seeds(ctx, 64)
     per = ctx.n(60, 900)
     # findings already reproduced by the regress replays (run first by the harness) need no second probe
@@ -1491,4 +1559,8 @@ def replay(ctx: Ctx, case: T.Any, doc: dict) -> T.Optional[Failure]:
     os.makedirs(work, exist_ok=True)
     if isinstance(case, dict) and case.get('probe_name') in PROBES:
         return run_probe(case['probe_name'], work)
+    if isinstance(case, dict) and case.get('script_destdir'):
+        c2 = Ctx(ctx.prop, ctx.tier, ctx.seed)
+        script_destdir_matrix(c2)
+        return next(iter(c2.failures.values()), None)
     return run_case(case, work, 'sub', None)
